@@ -197,8 +197,14 @@ def small_bodies_are_charged(ctx):
     g = ctx.cfg(r)
     reads = [c for c in own_calls(r.node) if (dotted(c.func) or '').endswith('_fileobj.read')]
     cons = [n for c in own_calls(r.node) if (dotted(c.func) or '').endswith('_consume_through_leaky_bucket') for n in g.nodes_of(c)]
-    unguarded = [c for c in reads if not (q.guards_imply(q.guards(c), 'not self._bandwidth_limiting_enabled') or q.guards_imply(q.guards(c), 'self._bytes_seen < self._bytes_threshold'))]
-    ok = bool(cons) and bool(unguarded) and g.all_dominate(cons, [n for c in unguarded for n in g.nodes_of(c)], g.NORMAL)
+    # path rule: no consume-free path to a read is consistent with (enabled and threshold reached)
+    rn = [n for c in reads for n in g.nodes_of(c)]
+    pcs = g.path_conditions([g.entry], rn, avoid=cons, labels=g.NORMAL)
+    ctx.need(pcs is not None, 'too many paths in BandwidthLimitedStream.read')
+    ok = bool(cons) and bool(rn) and all(
+        q.guards_imply(pc, 'not self._bandwidth_limiting_enabled or self._bytes_seen < self._bytes_threshold') for pc in pcs)
+    # and a read is reached on every normal path
+    ok = ok and g.must_pass([g.entry], rn, [g.exit], g.NORMAL)
     ctx.ob(r, 'read(): consume precedes the read once the threshold is reached', ok, 'reads past the threshold must go through the bucket first')
     acc = [n for n in own_nodes(r.node) if isinstance(n, ast.AugAssign) and dotted(n.target) == 'self._bytes_seen' and norm(n.value) == r.params[1]]
     ctx.ob(r, 'self._bytes_seen += amount', len(acc) == 1 and q.guards_imply(q.guards(acc[0]), 'self._bandwidth_limiting_enabled'), 'requested bytes must be accounted while limiting is enabled')
